@@ -6,7 +6,8 @@ let key k s = String.concat "," (List.map (fun n -> string_of_int (n2i n)) (dump
 let () =
   let k = int_of_string Sys.argv.(1) and nmax = int_of_string Sys.argv.(2) in
   let limit = if Array.length Sys.argv > 3 then int_of_string Sys.argv.(3) else 5_000_000 in
-  let noops = Array.length Sys.argv > 4 in   (* fewer consumer observers *)
+  let noops = Array.length Sys.argv > 4 in
+  let monly = Array.length Sys.argv > 5 in   (* fewer consumer observers *)
   let kn = i2n k in
   let seen = Hashtbl.create 1000003 in
   let q = Queue.create () in
@@ -23,7 +24,7 @@ let () =
     let (s, path) = Queue.pop q in
     incr count;
     if !count > limit then raise Exit;
-    if not (inv_b kn s) then begin
+    if not (if monly then monitors s else inv_b kn s) then begin
       incr bad;
       if !bad <= 3 then begin
         Printf.printf "INVARIANT/MONITOR FAILS (monitors=%b) after: %s\n  dump=%s\n" (monitors s)
